@@ -19,7 +19,7 @@ def shards(tier):
 
 def floors(tier):
     return {"cases": 5000, "padded": 1500, "pad_smaller_or_negative": 1500, "with_dot": 500, "error_paths": 1500,
-            "batches": 2000, "vocabulary_object_reused": 500, "vocabulary_grown_in_place": 1000, "with_trailing_dot": 200, "default_argument_forms": 1000}
+            "batches": 2000, "vocabulary_object_reused": 500, "vocabulary_grown_in_place": 1000, "with_trailing_dot": 200, "default_argument_forms": 1000, "scale_cases": 300}
 
 
 def run(ctx):
@@ -28,10 +28,13 @@ def run(ctx):
     quick = ctx.tier == "quick"
     shared_stoi, shared_itos = {}, {}
     for it in range(2500 if quick else 150000):
-        syms = list(SYMS)
+        big = it % 60 == 59          # scale: a vocabulary of hundreds to thousands of symbols, long strings, wide pads, large batches
+        syms = list(SYMS) + (["[%d%s]" % (n_, rng.choice(["C", "N", "Fe"])) for n_ in range(rng.choice([300, 1000, 2000]))] if big else [])
         rng.shuffle(syms)
-        k = rng.randint(2, len(syms))
+        k = rng.randint(2, len(syms)) if not big else len(syms)
         voc = syms[:k]
+        if big:
+            ctx.count("scale_cases")
         if '[nop]' not in voc:
             voc[rng.randrange(k)] = '[nop]'
         pairs = list(enumerate(voc))
@@ -48,7 +51,7 @@ def run(ctx):
             stoi, itos = shared_stoi, shared_itos
             ctx.count("vocabulary_object_reused")
         body = [s for s in voc if s != '.']
-        toks = [rng.choice(body) for _ in range(rng.randint(0, 12))]
+        toks = [rng.choice(body) for _ in range(rng.randint(0, 12) if not big else rng.choice([100, 300, 600]))]
         if '.' in stoi and len(toks) >= 2 and rng.random() < 0.5:
             toks.insert(rng.randint(1, len(toks) - 1), '.')
             ctx.count("with_dot")
@@ -57,7 +60,7 @@ def run(ctx):
             ctx.count("with_trailing_dot")
         s = ''.join(toks)
         L = len(toks)
-        pad = rng.choice([-5, -1, 0, L - 1, L, L + 1, L + 5, L + 20])
+        pad = rng.choice([-5, -1, 0, L - 1, L, L + 1, L + 5, L + 20] + ([L + 400, 1000] if big else []))
         payload = {"selfies": s, "vocab": voc, "pad": pad}
         ctx.count("cases")
         ctx.count("padded" if pad > L else "pad_smaller_or_negative")
@@ -95,7 +98,7 @@ def run(ctx):
             d = call_guard(lambda: sf.encoding_to_selfies(enc, itos, typ))
             if d != ("ok", back):
                 ctx.finding("decoding-not-inverse", payload, "%s: %r want %r" % (typ, d, back))
-        batch = [s, s[:0], s]
+        batch = [s, s[:0], s] if not big else [s] * rng.choice([3, 20])
         fl = call_guard(lambda: sf.batch_selfies_to_flat_hot(batch, stoi, pad))
         ctx.count("batches")
         want_fl = []
@@ -106,7 +109,7 @@ def run(ctx):
             ctx.finding("batch-not-elementwise", payload, repr(fl)[:200])
         else:
             un = call_guard(lambda: sf.batch_flat_hot_to_selfies(fl[1], itos))
-            want_un = [back, '[nop]' * max(0, pad), back]
+            want_un = [back, '[nop]' * max(0, pad), back] if not big else [back] * len(batch)
             if un != ("ok", want_un):
                 ctx.finding("batch-inverse-wrong", payload, "%r want %r" % (un, want_un))
         # error paths
